@@ -1,0 +1,39 @@
+package misc
+
+import (
+	"fmt"
+	"strings"
+)
+
+// RegoStringContent escapes s so that it can be pasted between double quotes in generated Rego code and denote
+// exactly s: backslash, double quote and control characters are escaped, everything else is kept as it is.
+func RegoStringContent(s string) string {
+	var b strings.Builder
+	for _, r := range s {
+		switch r {
+		case '\\':
+			b.WriteString(`\\`)
+		case '"':
+			b.WriteString(`\"`)
+		case '\n':
+			b.WriteString(`\n`)
+		case '\t':
+			b.WriteString(`\t`)
+		case '\r':
+			b.WriteString(`\r`)
+		default:
+			if r < 0x20 {
+				b.WriteString(fmt.Sprintf(`\u%04x`, r))
+			} else {
+				b.WriteRune(r)
+			}
+		}
+	}
+	return b.String()
+}
+
+// RegoStringContentNoTemplate additionally hides '$' from the generator's own $message/$node/$result template
+// substitution, which is applied to whole lines of generated code.
+func RegoStringContentNoTemplate(s string) string {
+	return strings.ReplaceAll(RegoStringContent(s), "$", "\\u0024")
+}
